@@ -15,6 +15,7 @@ import (
 	"crypto/sha256"
 	"encoding/hex"
 	"fmt"
+	"os"
 	"reflect"
 	"runtime"
 	"sort"
@@ -249,6 +250,9 @@ type Sim struct {
 	raceOrder []string
 
 	yieldFields map[string]bool
+
+	idChecks int
+	paranoid bool
 }
 
 type clientSpec struct {
@@ -300,6 +304,7 @@ func New(cfg Config) *Sim {
 		hash:    h,
 	}
 	s.hashSum = func() string { return hex.EncodeToString(h.Sum(nil)) }
+	s.paranoid = os.Getenv("VERIF_PARANOID") != ""
 	for _, f := range cfg.Faults {
 		s.faultAt[f.Ordinal] = f
 	}
@@ -374,11 +379,12 @@ func goid() int64 {
 	return id
 }
 
+// lookup identifies the calling client goroutine (see cur in hooks.go).
 func (s *Sim) lookup() *G {
-	id := goid()
-	s.mu.Lock()
-	g := s.gs[id]
-	s.mu.Unlock()
+	g := s.cur
+	if g == nil || g.state != gRunning {
+		return nil
+	}
 	return g
 }
 
